@@ -472,6 +472,125 @@ fn random_history_inner(rng: &mut Rng, steps: usize, universe: i32, st: &mut Spl
     Ok(())
 }
 
+/// Random history with keys that carry a tag the comparator ignores (a consistent comparator that is coarser than
+/// key identity): like the reference map and set, the tree must keep the key that was stored FIRST when an equivalent key is
+/// inserted again (the map replaces only the value, the set changes nothing), and every lookup must hand out that stored key.
+pub fn random_tagged_history(rng: &mut Rng, steps: usize, universe: i32, st: &mut SplayStats) -> Result<(), String> {
+    arm_splay(history_budget(steps, universe));
+    let r = random_tagged_history_inner(rng, steps, universe, st);
+    disarm_splay();
+    r
+}
+
+fn random_tagged_history_inner(rng: &mut Rng, steps: usize, universe: i32, st: &mut SplayStats) -> Result<(), String> {
+    st.histories += 1;
+    type K = (i32, u32); // (ordering part, tag)
+    let cmp = |a: &K, b: &K| a.0.cmp(&b.0);
+    let mut t: SplayTree<K, u32, _> = SplayTree::new(cmp);
+    let mut s: SplaySet<K, _> = SplaySet::new(cmp);
+    // reference: ordering part -> (tag of the stored key, value)
+    let mut m: BTreeMap<i32, (u32, u32)> = BTreeMap::new();
+    let mut ms: BTreeMap<i32, u32> = BTreeMap::new();
+    for step in 0..steps as u32 {
+        let k = rng.below(universe as u64) as i32;
+        let tag = step + 1;
+        match rng.below(10) {
+            0..=3 => {
+                st.op("tagged.insert");
+                let got = t.insert((k, tag), tag);
+                let want = match m.get_mut(&k) {
+                    Some(e) => {
+                        let old = e.1;
+                        e.1 = tag; // value replaced, key kept
+                        Some(old)
+                    }
+                    None => {
+                        m.insert(k, (tag, tag));
+                        None
+                    }
+                };
+                if got != want {
+                    return Err(format!("tagged insert({}) returned {:?}, reference {:?}", k, got, want));
+                }
+                let fresh = s.insert((k, tag));
+                if fresh != !ms.contains_key(&k) {
+                    return Err(format!("tagged set insert({}) returned {}", k, fresh));
+                }
+                ms.entry(k).or_insert(tag);
+            }
+            4 => {
+                st.op("tagged.remove");
+                if t.remove(&(k, 0)) != m.remove(&k).map(|e| e.1) {
+                    return Err(format!("tagged remove({}) disagrees with the reference", k));
+                }
+                if s.remove(&(k, 0)) != ms.remove(&k).is_some() {
+                    return Err(format!("tagged set remove({}) disagrees with the reference", k));
+                }
+            }
+            5..=6 => {
+                st.op("tagged.find_key");
+                let got = t.find_key(&(k, 0)).cloned();
+                let want = m.get(&k).map(|e| (k, e.0));
+                if got != want {
+                    return Err(format!("find_key({}) hands out {:?}, the stored key is {:?}", k, got, want));
+                }
+                let got = s.find(&(k, 0)).cloned();
+                let want = ms.get(&k).map(|tg| (k, *tg));
+                if got != want {
+                    return Err(format!("set find({}) hands out {:?}, the stored element is {:?}", k, got, want));
+                }
+            }
+            7 => {
+                st.op("tagged.next/prev");
+                let got = t.next(&(k, 0)).map(|(a, _)| *a);
+                let want = m.range((Excluded(k), Unbounded)).next().map(|(a, e)| (*a, e.0));
+                if got != want {
+                    return Err(format!("next({}) hands out key {:?}, the stored key is {:?}", k, got, want));
+                }
+                let got = s.prev(&(k, 0)).cloned();
+                let want = ms.range(..k).next_back().map(|(a, tg)| (*a, *tg));
+                if got != want {
+                    return Err(format!("set prev({}) hands out {:?}, the stored element is {:?}", k, got, want));
+                }
+            }
+            8 => {
+                st.op("tagged.min/max");
+                if t.min().cloned() != m.iter().next().map(|(a, e)| (*a, e.0)) || t.max().cloned() != m.iter().next_back().map(|(a, e)| (*a, e.0)) || s.min().cloned() != ms.iter().next().map(|(a, tg)| (*a, *tg)) {
+                    return Err("min/max hand out a key other than the stored one".into());
+                }
+            }
+            _ => {
+                st.op("tagged.extend");
+                let items: Vec<(K, u32)> = (0..rng.below(5)).map(|i| ((rng.below(universe as u64) as i32, tag * 8 + i as u32), tag)).collect();
+                for (key, v) in &items {
+                    match m.get_mut(&key.0) {
+                        Some(e) => e.1 = *v,
+                        None => {
+                            m.insert(key.0, (key.1, *v));
+                        }
+                    }
+                }
+                t.extend(items.into_iter());
+            }
+        }
+        if t.len() != m.len() || s.len() != ms.len() {
+            return Err(format!("len {} / {} but the references hold {} / {}", t.len(), s.len(), m.len(), ms.len()));
+        }
+    }
+    st.iterations += 1;
+    let got: Vec<(K, u32)> = t.into_iter().collect();
+    let want: Vec<(K, u32)> = m.iter().map(|(a, e)| ((*a, e.0), e.1)).collect();
+    if got != want {
+        return Err(format!("consuming iteration yields {:?}, the stored keys and values are {:?}", got, want));
+    }
+    let got: Vec<K> = s.into_iter().collect();
+    let want: Vec<K> = ms.iter().map(|(a, tg)| (*a, *tg)).collect();
+    if got != want {
+        return Err(format!("set iteration yields {:?}, the stored elements are {:?}", got, want));
+    }
+    Ok(())
+}
+
 /// Random history on the set wrapper, with `Rc` elements and a comparator on the pointee, the way the
 /// sweep uses it (identity of the Rc matters to the caller, ordering comes from the comparator).
 pub fn random_set_history(rng: &mut Rng, steps: usize, universe: i32, st: &mut SplayStats) -> Result<(), String> {
